@@ -1031,6 +1031,53 @@ def only_diagnostics(F, R):
     R.ob('C09.only-diagnostics-dropped', 'v5::Codec|NO_PROBLEM_INFO==!CONNECT.request_problem_info', ok, msg, sets[0][0].loc(sets[0][1]) if sets else None)
 
 
+def flags_preserved(F, R):
+    """Every other place of the v5 codec that stores into `flags` only adds/removes single named flags on the
+    value it read: the NO_PROBLEM_INFO bit set when CONNECT was decoded survives the capability setters the
+    server handshake calls afterwards."""
+    n = 0
+    for b in F.find(r'^v5::codec::codec::Codec::\w+$'):
+        sets = [(bi, t) for bi, t in b.calls_to(r'^std::cell::Cell::<T>::set$') if (call_recv_path(b, t, 0) or ('',))[-1] == 'flags']
+        if not sets:
+            continue
+        for bi, t in sets:
+            n += 1
+            name = b.path.split('::')[-1]
+            p0 = op_place(t['args'][1])
+            ok = False
+            why = 'the stored flags value is not the value read from the cell'
+            if p0 is not None:
+                # follow plain moves back to the local that holds the working copy
+                l = p0['l']
+                for _ in range(6):
+                    ds = [d for d in b.whole_defs(l) if d[0] in b.live]
+                    if len(ds) == 1 and ds[0][2] == 'assign' and ds[0][3]['rv']['k'] == 'use' and op_place(ds[0][3]['rv']['op']) is not None and not place_proj(op_place(ds[0][3]['rv']['op'])):
+                        l = op_place(ds[0][3]['rv']['op'])['l']
+                    else:
+                        break
+                ds = [d for d in b.whole_defs(l) if d[0] in b.live]
+                from_get = len(ds) == 1 and ds[0][2] == 'call' and (callee_name(ds[0][3]) or '').endswith('Cell::<T>::get') and (call_recv_path(b, ds[0][3], 0) or ('',))[-1] == 'flags'
+                if not from_get:
+                    why = 'the stored value is computed (%d definitions) instead of being the value read from the cell modified in place: bits it does not mention are lost' % len(ds)
+                else:
+                    ok = True
+                    import c01
+                    for xb, xt in b.calls():
+                        if not xt['args']:
+                            continue
+                        if c01.root_local(b, xt['args'][0]) != l:
+                            continue
+                        base = (callee_name(xt) or '').split('::')[-1]
+                        if base not in ('insert', 'remove', 'set', 'toggle', 'contains'):
+                            ok = False
+                            why = 'the working copy is transformed by %s()' % base
+                        elif base != 'contains' and flag_is(F, b, xt, 'NO_PROBLEM_INFO'):
+                            ok = False
+                            why = 'NO_PROBLEM_INFO is modified outside the CONNECT decoder'
+            R.ob('C09.only-diagnostics-dropped', 'v5::Codec::%s|flags-update-preserves-NO_PROBLEM_INFO' % name, ok, why, b.loc(bi))
+    R.floor('C09.only-diagnostics-dropped', 'flag stores outside the decoder', n, 1)
+
+
 def flag_is(F, b, t, name):
     """One of the call's arguments is the CodecFlags constant `name`."""
     for a in t['args'][1:]:
@@ -1157,6 +1204,7 @@ def run(F, R):
     header_allowance(F, R)
     limit_arith(F, R)
     only_diagnostics(F, R)
+    flags_preserved(F, R)
     reported_size(F, R)
     failed_encode(F, R)
     R.assume('sums of in-memory lengths do not overflow usize (Overflow:Add on usize in the size functions is not examined)')
